@@ -4,7 +4,6 @@ import (
 	"context"
 	"errors"
 	"fmt"
-	"sort"
 	"sync"
 	"time"
 
@@ -16,7 +15,8 @@ import (
 // GET, GETDEL, EXPIRE, DEL, SCAN. Any other command panics with a nil
 // dereference, which shows up as a "panic" failure: the fake then needs the new
 // command. Semantics are those of a Redis server (documented behaviour of the
-// commands, go-redis v9.0.4 argument rules) on the harness's virtual clock: a
+// commands, go-redis v9.0.4 argument rules, cursor-based SCAN with bounded pages)
+// on the harness's virtual clock: a
 // key written with a positive time.Duration d at virtual instant T disappears
 // once the clock has passed T+d. The fake applies the Duration it is handed
 // exactly (go-redis' own EX/PX rounding is outside the sandbox).
@@ -26,6 +26,17 @@ type fakeRedis struct {
 	now  func() int64 // virtual unix seconds
 	data map[string]fakeEntry
 	log  []string
+
+	// SCAN walks a slot table the way Redis walks its hash table: every key
+	// sits in one slot, a deleted key leaves a hole, the cursor is a position in
+	// the table. One SCAN call examines a bounded number of slots (holes, keys of
+	// other prefixes and non-matching keys all use up the budget), so a page can
+	// be short or empty although the cursor it returns is not 0.
+	cfg   ScanCfg
+	slots []string       // "" = hole
+	pos   map[string]int // key -> slot
+	own   int            // keys placed by commands (not the foreign ones)
+	gaps  int
 }
 
 type fakeEntry struct {
@@ -33,8 +44,82 @@ type fakeEntry struct {
 	exp int64 // virtual unix nanoseconds; 0 = no expiry
 }
 
-func newFakeRedis(now func() int64) *fakeRedis {
-	return &fakeRedis{now: now, data: map[string]fakeEntry{}}
+// ScanCfg is the part of a case that shapes the fake's SCAN replies. Any page
+// size is a legal Redis behaviour (COUNT is a hint, the default is 10).
+type ScanCfg struct {
+	Page    int  `json:"page,omitempty"`    // slots examined per SCAN call without COUNT (0 = 10)
+	Foreign int  `json:"foreign,omitempty"` // keys of another prefix present before the history starts
+	Gap     int  `json:"gap,omitempty"`     // g > 0: another foreign key appears after every g-th new key
+	Reuse   bool `json:"reuse,omitempty"`   // a new key goes into the lowest hole instead of a fresh slot
+}
+
+func (c ScanCfg) normal() ScanCfg {
+	if c.Page < 1 {
+		c.Page = 10
+	}
+	if c.Page > 1000 {
+		c.Page = 1000
+	}
+	if c.Foreign < 0 {
+		c.Foreign = 0
+	}
+	if c.Foreign > 16 {
+		c.Foreign = 16
+	}
+	if c.Gap < 0 {
+		c.Gap = 0
+	}
+	return c
+}
+
+const foreignPrefix = "other:"
+
+func newFakeRedis(now func() int64, cfg ScanCfg) *fakeRedis {
+	f := &fakeRedis{now: now, data: map[string]fakeEntry{}, pos: map[string]int{}, cfg: cfg.normal()}
+	for i := 0; i < f.cfg.Foreign; i++ {
+		f.place(fmt.Sprintf("%sf%d", foreignPrefix, i), fakeEntry{val: "foreign"}, true)
+	}
+	return f
+}
+
+// place stores an entry, giving a new key its slot.
+func (f *fakeRedis) place(key string, e fakeEntry, foreign bool) {
+	f.data[key] = e
+	if _, ok := f.pos[key]; ok {
+		return
+	}
+	slot := -1
+	if f.cfg.Reuse {
+		for i, k := range f.slots {
+			if k == "" {
+				slot = i
+				break
+			}
+		}
+	}
+	if slot < 0 {
+		f.slots = append(f.slots, "")
+		slot = len(f.slots) - 1
+	}
+	f.slots[slot] = key
+	f.pos[key] = slot
+	if foreign {
+		return
+	}
+	f.own++
+	if f.cfg.Gap > 0 && f.own%f.cfg.Gap == 0 {
+		f.gaps++
+		f.place(fmt.Sprintf("%sg%d", foreignPrefix, f.gaps), fakeEntry{val: "foreign"}, true)
+	}
+}
+
+// drop deletes a key; its slot becomes a hole.
+func (f *fakeRedis) drop(key string) {
+	if i, ok := f.pos[key]; ok {
+		f.slots[i] = ""
+		delete(f.pos, key)
+	}
+	delete(f.data, key)
 }
 
 func (f *fakeRedis) nowNs() int64 { return f.now() * int64(time.Second) }
@@ -65,7 +150,7 @@ func (f *fakeRedis) lookup(key string) (fakeEntry, bool) {
 		return e, false
 	}
 	if e.exp != 0 && f.nowNs() > e.exp {
-		delete(f.data, key)
+		f.drop(key)
 		return fakeEntry{}, false
 	}
 	return e, true
@@ -98,7 +183,7 @@ func (f *fakeRedis) Set(_ context.Context, key string, value interface{}, expira
 	default: // go-redis sends no expiry argument: the key becomes persistent
 		f.logf("SET %s (no expiry, duration %v)", key, expiration)
 	}
-	f.data[key] = e
+	f.place(key, e, false)
 	return redis.NewStatusResult("OK", nil)
 }
 
@@ -117,7 +202,7 @@ func (f *fakeRedis) SetNX(_ context.Context, key string, value interface{}, expi
 	if expiration > 0 {
 		e.exp = f.nowNs() + int64(expiration)
 	}
-	f.data[key] = e
+	f.place(key, e, false)
 	return redis.NewBoolResult(true, nil)
 }
 
@@ -140,7 +225,7 @@ func (f *fakeRedis) GetDel(_ context.Context, key string) *redis.StringCmd {
 	if !ok {
 		return redis.NewStringResult("", redis.Nil)
 	}
-	delete(f.data, key)
+	f.drop(key)
 	return redis.NewStringResult(e.val, nil)
 }
 
@@ -153,11 +238,11 @@ func (f *fakeRedis) Expire(_ context.Context, key string, expiration time.Durati
 		return redis.NewBoolResult(false, nil)
 	}
 	if expiration <= 0 { // EXPIRE with a non-positive timeout deletes the key
-		delete(f.data, key)
+		f.drop(key)
 		return redis.NewBoolResult(true, nil)
 	}
 	e.exp = f.nowNs() + int64(expiration)
-	f.data[key] = e
+	f.data[key] = e // the key keeps its slot
 	return redis.NewBoolResult(true, nil)
 }
 
@@ -168,30 +253,134 @@ func (f *fakeRedis) Del(_ context.Context, keys ...string) *redis.IntCmd {
 	var n int64
 	for _, k := range keys {
 		if _, ok := f.lookup(k); ok {
-			delete(f.data, k)
+			f.drop(k)
 			n++
 		}
 	}
 	return redis.NewIntResult(n, nil)
 }
 
-// Scan returns every live key matching the glob in one page (cursor 0), which
-// is a legal SCAN answer.
-func (f *fakeRedis) Scan(_ context.Context, cursor uint64, match string, count int64) *redis.ScanCmd {
+// Scan answers like a Redis server: the returned ScanCmd carries its arguments
+// and a process function, so that ScanCmd.Iterator() (which re-issues the
+// command with the cursor of the previous reply) fetches the following pages
+// from the fake, exactly as it would from a connection.
+func (f *fakeRedis) Scan(ctx context.Context, cursor uint64, match string, count int64) *redis.ScanCmd {
+	args := []interface{}{"scan", cursor}
+	if match != "" {
+		args = append(args, "match", match)
+	}
+	if count > 0 {
+		args = append(args, "count", count)
+	}
+	cmd := redis.NewScanCmd(ctx, f.processScan, args...)
+	_ = f.processScan(ctx, cmd)
+	return cmd
+}
+
+func toUint64(v interface{}) (uint64, bool) {
+	switch x := v.(type) {
+	case uint64:
+		return x, true
+	case int64:
+		return uint64(x), x >= 0
+	case int:
+		return uint64(x), x >= 0
+	}
+	return 0, false
+}
+
+// processScan executes one SCAN call: it examines the next `budget` slots from
+// the cursor (COUNT if given, else the case's page size), returns the live keys
+// among them that match, and the position to continue from - 0 once the table is
+// exhausted. Keys present during a whole iteration are therefore returned once;
+// keys deleted or added meanwhile may or may not be (as Redis documents).
+func (f *fakeRedis) processScan(_ context.Context, c redis.Cmder) error {
+	cmd, ok := c.(*redis.ScanCmd)
+	if !ok {
+		err := fmt.Errorf("fake redis: unexpected command %T through the scan path", c)
+		c.SetErr(err)
+		return err
+	}
+	args := cmd.Args()
+	bad := func(why string) error {
+		err := fmt.Errorf("ERR syntax error (%s) in %v", why, args)
+		cmd.SetErr(err)
+		return err
+	}
+	if len(args) < 2 || fmt.Sprint(args[0]) != "scan" {
+		return bad("not a scan")
+	}
+	cursor, ok := toUint64(args[1])
+	if !ok {
+		return bad("cursor")
+	}
+	match, count := "", uint64(0)
+	for i := 2; i+1 < len(args); i += 2 {
+		switch fmt.Sprint(args[i]) {
+		case "match":
+			match = fmt.Sprint(args[i+1])
+		case "count":
+			if count, ok = toUint64(args[i+1]); !ok || count == 0 {
+				return bad("count")
+			}
+		default:
+			return bad("option")
+		}
+	}
 	f.mu.Lock()
 	defer f.mu.Unlock()
-	f.logf("SCAN %d MATCH %s COUNT %d", cursor, match, count)
-	if cursor != 0 {
-		return redis.NewScanCmdResult(nil, 0, nil)
+	budget := f.cfg.Page
+	if count > 0 {
+		budget = int(count)
 	}
-	var keys []string
-	for k := range f.data {
-		if _, ok := f.lookup(k); ok && (match == "" || globMatch(match, k)) {
+	start := len(f.slots)
+	if cursor < uint64(len(f.slots)) {
+		start = int(cursor)
+	}
+	end := start + budget
+	if end > len(f.slots) || end < start {
+		end = len(f.slots)
+	}
+	keys := []string{}
+	for i := start; i < end; i++ {
+		k := f.slots[i]
+		if k == "" {
+			continue
+		}
+		if _, live := f.lookup(k); live && (match == "" || globMatch(match, k)) {
 			keys = append(keys, k)
 		}
 	}
-	sort.Strings(keys)
-	return redis.NewScanCmdResult(keys, 0, nil)
+	next := uint64(end)
+	if end >= len(f.slots) {
+		next = 0
+	}
+	f.logf("SCAN %d MATCH %s COUNT %d -> %v next %d", cursor, match, count, keys, next)
+	cmd.SetVal(keys, next)
+	return nil
+}
+
+// ScanLayout tells, without changing anything, how many matching live keys each
+// page of a complete SCAN iteration would carry right now (class labels only).
+func (f *fakeRedis) ScanLayout(match string) []int {
+	f.mu.Lock()
+	defer f.mu.Unlock()
+	var pages []int
+	now := f.nowNs()
+	for start := 0; start < len(f.slots); start += f.cfg.Page {
+		n := 0
+		for i := start; i < start+f.cfg.Page && i < len(f.slots); i++ {
+			k := f.slots[i]
+			if k == "" {
+				continue
+			}
+			if e := f.data[k]; (e.exp == 0 || now <= e.exp) && globMatch(match, k) {
+				n++
+			}
+		}
+		pages = append(pages, n)
+	}
+	return pages
 }
 
 // globMatch implements the subset of Redis glob patterns used here: '*', '?',
